@@ -1,6 +1,7 @@
 package main
 
 import (
+	"go/token"
 	"fmt"
 	"go/constant"
 	"go/types"
@@ -17,8 +18,9 @@ func init() {
 			"C04.unmask: in the server role every count returned by msgReader.read is preceded by unmasking exactly the bytes read, on the error path too",
 			"C04.count: payloadLength is decremented by the transport count on every path that returns it",
 			"C04.adapters: Conn.Read returns io.ReadAll's error unchanged; netConn.read ends a message only on identity err == io.EOF; wsjson.read returns before Unmarshal on a read error",
+			"C04.closers: the connection is torn down (close / closeTransport) only at the frozen sites — read-side failure, received close frame, explicit close, context end of a blocked call; a teardown elsewhere (e.g. on a failed write) makes reads fail before complete messages already received are delivered",
 		},
-		NotDecided: []string{"that bytes returned before the error are a prefix of the decompressed payload", "that earlier messages were delivered intact"},
+		NotDecided: []string{"that bytes returned before the error are a prefix of the decompressed payload", "that earlier messages were delivered intact, beyond the teardown sites (C04.closers)"},
 		Trusted:    []string{"go/types, go/ssa", "io.ReadAll, io.ReadFull, bufio contracts", "errors.Is semantics"},
 	}, runC04)
 	register("C06", propInfo{
@@ -642,6 +644,87 @@ func cReasons(p *Program, r *Report, rule string) {
 		}
 		return false
 	}
+	// a string built from constants and bounded pieces: decimal/quoted renderings of numbers, String() of a small named
+	// integer type (generated stringers), and — the one frozen exception — the payload parseClosePayload has just found
+	// shorter than 2 bytes
+	var strBounded func(v ssa.Value, inFn string, depth int) bool
+	strBounded = func(v ssa.Value, inFn string, depth int) bool {
+		if depth > 8 {
+			return false
+		}
+		switch x := v.(type) {
+		case *ssa.Const:
+			return true
+		case *ssa.BinOp:
+			return x.Op == token.ADD && strBounded(x.X, inFn, depth+1) && strBounded(x.Y, inFn, depth+1)
+		case *ssa.Convert:
+			if boundedType(x.X.Type()) {
+				return true
+			}
+			return inFn == "parseClosePayload"
+		case *ssa.Phi:
+			for _, e := range x.Edges {
+				if !strBounded(e, inFn, depth+1) {
+					return false
+				}
+			}
+			return true
+		case *ssa.Call:
+			_, name := p.calleeOf(&x.Call)
+			switch name {
+			case "strconv.Itoa", "strconv.FormatInt", "strconv.FormatUint", "strconv.FormatBool":
+				return true
+			case "strconv.Quote":
+				return len(x.Call.Args) == 1 && strBounded(x.Call.Args[0], inFn, depth+1)
+			}
+			if strings.HasSuffix(name, ".String") && len(x.Call.Args) >= 1 && boundedType(x.Call.Args[0].Type()) {
+				return true
+			}
+		}
+		return false
+	}
+	var avStrBounded func(a AV, inParse bool, depth int) bool
+	avStrBounded = func(a AV, inParse bool, depth int) bool {
+		if depth > 8 || a == nil {
+			return false
+		}
+		switch x := a.(type) {
+		case *Const:
+			return true
+		case *Expr:
+			switch x.Op {
+			case "binop":
+				return x.Name == "+" && len(x.Args) == 2 && avStrBounded(x.Args[0], inParse, depth+1) && avStrBounded(x.Args[1], inParse, depth+1)
+			case "convert":
+				if len(x.Args) == 1 {
+					if ie, ok := x.Args[0].(*Expr); ok && ie.T != nil && boundedType(ie.T) {
+						return true
+					}
+				}
+				return inParse
+			case "call":
+				name := x.Name
+				if i := strings.Index(name, "@"); i >= 0 {
+					name = name[:i]
+				}
+				switch name {
+				case "strconv.Itoa", "strconv.FormatInt", "strconv.FormatUint", "strconv.FormatBool":
+					return true
+				case "strconv.Quote":
+					return len(x.Args) == 1 && avStrBounded(x.Args[0], inParse, depth+1)
+				}
+				if strings.HasSuffix(name, ".String") && len(x.Args) >= 1 {
+					if ie, ok := x.Args[0].(*Expr); ok && ie.T != nil && boundedType(ie.T) {
+						return true
+					}
+					if _, ok := x.Args[0].(*Const); ok {
+						return true
+					}
+				}
+			}
+		}
+		return false
+	}
 	var errBounded func(v ssa.Value, depth int) (bool, string)
 	// operands of an Errorf call
 	operandsOf := func(call *ssa.Call) []ssa.Value {
@@ -676,6 +759,9 @@ func cReasons(p *Program, r *Report, rule string) {
 			case "errors.New":
 				if _, ok := x.Call.Args[0].(*ssa.Const); ok {
 					return true, "errors.New(const)"
+				}
+				if strBounded(x.Call.Args[0], p.FuncName(x.Parent()), 0) {
+					return true, "errors.New(constants and bounded pieces)"
 				}
 				return false, "errors.New of a non-constant"
 			case "fmt.Errorf":
@@ -779,6 +865,9 @@ func cReasons(p *Program, r *Report, rule string) {
 		case strings.HasPrefix(e.Name, "errors.New@"):
 			if _, isC := e.Args[0].(*Const); isC {
 				return true, "errors.New(const)"
+			}
+			if avStrBounded(e.Args[0], strings.Contains(e.Name, "@parseClosePayload."), 0) {
+				return true, "errors.New(constants and bounded pieces)"
 			}
 			return false, "errors.New of a non-constant"
 		case strings.HasPrefix(e.Name, "fmt.Errorf@"):
